@@ -18,19 +18,22 @@ for f in kf:
 t83 = "\n".join(rows)
 summ = json.load(open(os.path.join(here, "selftest", "seeded_summaries.json")))
 rows = ["| seeded change | property | file(s) changed | what it is / what it needs to manifest | confirmed by me | quick check(s) that report it |", "|---|---|---|---|---|---|"]
-n = ncaught = 0
+n = ncaught = nquick = 0
 for d in sorted(glob.glob(os.path.join(here, "seeded", "*"))):
     mp = os.path.join(d, "meta.json")
     if not os.path.exists(mp):
         continue
     m = json.load(open(mp))
     files = re.findall(r"^\+\+\+ b/(\S+)", open(os.path.join(d, "patch.diff")).read(), re.M)
-    caught = ", ".join(m.get("caught_by", [])) or "not run yet"
+    cb = m.get("caught_by")
+    cb = cb if isinstance(cb, list) else None
+    caught = ("not run yet" if cb is None else (", ".join(cb) or "none")) + (f" ({m['not_reported_by_design']})" if m.get("not_reported_by_design") else "")
     n += 1
-    ncaught += bool(m.get("caught_by"))
+    ncaught += bool(cb)
+    nquick += bool(cb) and any(c.endswith("quick") for c in cb)
     rows.append(f"| {m['name']} | {m['property']} | {', '.join(sorted(set(f.replace('pyvolutionary/', '') for f in files)))} | "
                 f"{summ.get(m['name'], '')} | {'yes' if m.get('confirmed') else 'no (see meta.json)'} | {caught} |")
-t85 = "\n".join(rows) + f"\n\n{ncaught} of {n} seeded changes on file are reported by the quick tier of at least one check.\n"
+t85 = "\n".join(rows) + f"\n\n{ncaught} of {n} seeded changes on file are reported by at least one check ({nquick} by a quick tier).\n"
 p = os.path.join(here, "DESIGN.md")
 s = open(p).read()
 for tag, body in (("8.3-table", t83), ("8.5-table", t85)):
